@@ -94,10 +94,18 @@ def run(ctx) -> list[Inst]:
             kinds = {s for _, s in sinks.values()}
             exc = [k for k in kinds if (f.name, k) in CONDITIONAL_SINK_OK]
             if exc and kinds <= set(exc) | {'entry_points.append', 'add_entry_point'}:
-                insts.append(Inst(RULE, fname, construct + ' [documented exception]', 'info',
-                                  msg=CONDITIONAL_SINK_OK[(f.name, exc[0])], file=rel, line=h.lineno,
-                                  props=props, nontrivial=False))
-                continue
+                # the exception covers exactly the already-exists guard in front of the sink: reaching that
+                # guard counts as reaching the sink; any other way back to the loop header is a dropped element
+                guards = {g.idx for g in body if g.kind == 'if' and g.loop is h
+                          and 'association_exists_between_assets' in stmt_text(g.ast.test)
+                          and any(cfg.dominates(g, sn) for sn, k in sinks.values() if k == 'add_association')}
+                bad2 = _path_avoiding(cfg, h, set(sinks) | guards) if guards else bad
+                if bad2 is None:
+                    insts.append(Inst(RULE, fname, construct + ' [documented exception]', 'info',
+                                      msg=CONDITIONAL_SINK_OK[(f.name, exc[0])], file=rel, line=h.lineno,
+                                      props=props, nontrivial=False))
+                    continue
+                bad = bad2
             insts.append(Inst(
                 RULE, fname, construct, 'violation',
                 msg=(f"an iteration of 'for {stmt_text(h.ast.target)} in {stmt_text(h.ast.iter, 60)}' can return to "
